@@ -128,6 +128,11 @@ def runStep (st : RunSt) (line : String) : RunSt × String :=
     match st.cfg, parseCfg ws with
     | none, some cfg => ({ cfg := some cfg, s := S.init cfg, x := Mixed.MS.init cfg }, "ok")
     | _, _ => (st, "bad-op")
+  | "reload" :: ws =>
+    -- the whole configuration again (the same or a changed one): a new engine, started at the current instant
+    match st.cfg, (if (kv ws "t0").isSome then none else parseCfg (s!"t0={st.x.s.now}" :: ws)) with
+    | some _, some cfg => ({ cfg := some cfg, s := S.init cfg, x := Mixed.MS.init cfg }, "ok")
+    | _, _ => (st, "bad-op")
   | ws =>
     match st.cfg, parseEvent ws with
     | some cfg, some e =>
@@ -191,6 +196,13 @@ def judgeStep (s : JudgeSt) (op out : String) : JudgeSt :=
       if out == "ok" then { s with cfg := some cfg, tr := Tracker.init cfg }
       else { s with verdict := some ("fail - engine-did-not-start:" ++ pctEnc out) }
     | _, _ => { s with verdict := some ("fail - implementation-accepted-a-malformed-cfg:" ++ pctEnc out) }
+  | "reload" :: ws =>
+    match s.cfg, (if (kv ws "t0").isSome then none else parseCfg (s!"t0={s.tr.now}" :: ws)) with
+    | some _, some cfg =>
+      -- the Spec is evaluated per load: from the reload on, on the new configuration started at the reload instant
+      if out == "ok" then { s with cfg := some cfg, tr := Tracker.init cfg }
+      else { s with verdict := some ("fail - engine-did-not-reload:" ++ pctEnc out) }
+    | _, _ => { s with verdict := some ("fail - implementation-accepted-a-malformed-reload:" ++ pctEnc out) }
   | ws =>
     match s.cfg, parseEvent ws with
     | some cfg, some e =>
